@@ -21,9 +21,15 @@ func VerifyAPREQ(APReq *messages.APReq, s *Settings) (bool, *credentials.Credent
 			messages.NewKRBError(APReq.Ticket.SName, APReq.Ticket.Realm, errorcode.KRB_AP_ERR_BADADDR, "ticket does not contain HostAddress values required")
 	}
 
-	// Check for replay
+	// Check for replay. The service the authenticator was presented to is the principal whose key opened the
+	// ticket: with a keytab principal override that is the override, whatever name the (unprotected) ticket
+	// header carries.
 	rc := GetReplayCache(s.MaxClockSkew())
-	if rc.IsReplay(APReq.Ticket.SName, APReq.Authenticator) {
+	sname := APReq.Ticket.SName
+	if kp := s.KeytabPrincipal(); kp != nil {
+		sname = *kp
+	}
+	if rc.IsReplay(sname, APReq.Authenticator) {
 		return false, creds,
 			messages.NewKRBError(APReq.Ticket.SName, APReq.Ticket.Realm, errorcode.KRB_AP_ERR_REPEAT, "replay detected")
 	}
